@@ -5,7 +5,7 @@
 set -u
 ID=$1; DEMO=$2
 WT=/tmp/seed/$ID/wt; OUT=/tmp/seed/$ID/out
-export GOFLAGS=-mod=mod GOPROXY=off GOSUMDB=off GOTOOLCHAIN=local
+export GOFLAGS=-mod=mod GOPROXY=off GOSUMDB=off GOTOOLCHAIN=local DBUS_SESSION_BUS_ADDRESS=${DBUS_SESSION_BUS_ADDRESS:-unix:path=/nonexistent/verif-no-dbus}
 cd $WT || exit 2
 go build ./... || { echo "CONFIRM $ID: does not compile"; exit 1; }
 echo "--- demo WITH change (must fail)"; bash -c "$DEMO" > /tmp/seed/$ID/demo_with.log 2>&1; rc1=$?
